@@ -154,6 +154,9 @@ package internal
 //@   ensures err != nil ==> beErr(err) || fromEnv(err)
 //@ spec namedRaw(v RawXMLValue) bool = dynIs(v.tok, "xml.StartElement")
 //@ spec rawName(v RawXMLValue) xml.Name = dynVal(v.tok, "xml.StartElement").Name
+//@ -- the element name of the i-th value filed through EncodeProp (ghost log)
+//@ spec loggedPtr(i int) *RawXMLValue = dynPtr(smt("$Iface", "(select $0 $1)", epVal, i), "*RawXMLValue")
+//@ spec loggedName(i int) xml.Name = rawName(*loggedPtr(i))
 //@ spec propFormOnly(pf *PropFind) bool = pf.PropName == nil && pf.AllProp == nil && pf.Prop != nil
 //@ -- every requested property is an element (which is what RawXMLValue.UnmarshalXML stores for the children of DAV:prop)
 //@ spec allNamed(pf *PropFind) bool = pf.Prop != nil && (forall j int :: 0 <= j && j < len(pf.Prop.Raw) ==> namedRaw(pf.Prop.Raw[j]))
@@ -169,22 +172,34 @@ package internal
 //@   -- prop form: every requested name is accounted for exactly once, in request order; 404 exactly for the names the resource does not have
 //@   ensures A1: propFormOnly(propfind) && old(allNamed(propfind)) ==> epCalls == old(epCalls) + len(propfind.Prop.Raw)
 //@   ensures A1b: propFormOnly(propfind) ==> epCalls <= old(epCalls) + len(propfind.Prop.Raw)
-//@   ensures A2: propFormOnly(propfind) && old(allNamed(propfind)) ==> (forall j int :: 0 <= j && j < len(propfind.Prop.Raw) && !(has(old(props), rawName(propfind.Prop.Raw[j])) || rawName(propfind.Prop.Raw[j]) == ResourceTypeName)
+//@   ensures A2: propFormOnly(propfind) && old(allNamed(propfind)) ==> (forall j int :: 0 <= j && j < len(propfind.Prop.Raw) && (let n : rawName(propfind.Prop.Raw[j]) in !(old(has(props, n)) || n == ResourceTypeName))
 //@   |   ==> smt("int", "(select $0 $1)", epCode, old(epCalls) + j) == 404)
 //@   -- propname / allprop: only properties the resource has are listed, propname under 200
 //@   ensures A3: propfind.PropName != nil ==> (forall k int :: old(epCalls) <= k && k < epCalls ==> smt("int", "(select $0 $1)", epCode, k) == 200)
 //@   ensures A4: err == nil ==> psDistinct(resp)
+//@   -- propname: every property the resource has is listed exactly once (one logged element per key, no key twice, nothing else)
+//@   ensures A5: propfind.PropName != nil ==> (forall k xml.Name :: (old(has(props, k)) || k == ResourceTypeName) ==> (exists i int :: old(epCalls) <= i && i < epCalls && loggedName(i) == k))
+//@   ensures A6: propfind.PropName != nil ==> (forall i int, j int :: old(epCalls) <= i && i < j && j < epCalls ==> loggedName(i) != loggedName(j))
+//@   -- allprop: one value is filed per property the resource has (every key is visited exactly once, T-go)
+//@   ensures A8: propfind.PropName == nil && propfind.AllProp != nil ==> epCalls == old(epCalls) + old(len(props)) + (old(has(props, ResourceTypeName)) ? 0 : 1)
+//@   ensures A7: propfind.PropName != nil ==> (forall i int :: old(epCalls) <= i && i < epCalls ==> (let n : loggedName(i) in old(has(props, n)) || n == ResourceTypeName))
 //@   loop 1 invariant I1: resp != nil && fresh(resp) && psDistinct(resp) && len(resp.Hrefs) == 1 && resp.Hrefs[0].Path == path && resp.Status == nil && mutations == old(mutations) && epCalls >= old(epCalls)
 //@   loop 1 invariant I2: forall k int :: old(epCalls) <= k && k < epCalls ==> smt("int", "(select $0 $1)", epCode, k) == 200
-//@   loop 1 invariant I3: forall k xml.Name :: has(props, k) ==> props[k] != nil
+//@   loop 1 invariant I3: (forall k xml.Name :: has(props, k) ==> props[k] != nil) && (forall k xml.Name :: has(props, k) <==> (old(has(props, k)) || k == ResourceTypeName))
+//@   loop 1 invariant I4: forall k xml.Name :: seen(k) ==> (exists i int :: old(epCalls) <= i && i < epCalls && loggedName(i) == k)
+//@   loop 1 invariant I5: forall i int :: old(epCalls) <= i && i < epCalls ==> seen(loggedName(i)) && has(props, loggedName(i))
+//@   loop 1 invariant I7: forall i int :: old(epCalls) <= i && i < epCalls ==> loggedPtr(i) != nil && allocated(loggedPtr(i))
+//@   loop 1 invariant I6: forall i int, j int :: old(epCalls) <= i && i < j && j < epCalls ==> loggedName(i) != loggedName(j)
 //@   loop 2 invariant I1: resp != nil && fresh(resp) && psDistinct(resp) && len(resp.Hrefs) == 1 && resp.Hrefs[0].Path == path && resp.Status == nil && mutations == old(mutations)
-//@   loop 2 invariant I3: forall k xml.Name :: has(props, k) ==> props[k] != nil
+//@   loop 2 invariant I3: (forall k xml.Name :: has(props, k) ==> props[k] != nil) && (forall k xml.Name :: has(props, k) <==> (old(has(props, k)) || k == ResourceTypeName))
+//@   loop 2 invariant I3c: len(props) == old(len(props)) + (old(has(props, ResourceTypeName)) ? 0 : 1)
+//@   loop 2 invariant I4: epCalls == old(epCalls) + #i
 //@   loop 3 invariant I1: resp != nil && fresh(resp) && psDistinct(resp) && len(resp.Hrefs) == 1 && resp.Hrefs[0].Path == path && resp.Status == nil && mutations == old(mutations) && epCalls <= old(epCalls) + #i && (old(allNamed(propfind)) ==> epCalls == old(epCalls) + #i)
-//@   loop 3 invariant I2: old(allNamed(propfind)) ==> forall j int :: 0 <= j && j < #i && !(has(old(props), rawName(propfind.Prop.Raw[j])) || rawName(propfind.Prop.Raw[j]) == ResourceTypeName)
+//@   loop 3 invariant I2: old(allNamed(propfind)) ==> forall j int :: 0 <= j && j < #i && (let n : rawName(propfind.Prop.Raw[j]) in !(old(has(props, n)) || n == ResourceTypeName))
 //@   |   ==> smt("int", "(select $0 $1)", epCode, old(epCalls) + j) == 404
 //@   loop 3 invariant I4: (forall k int :: 0 <= k && k < len(resp.PropStats) ==> fresh(resp.PropStats[k].Prop.Raw)) && (forall j int :: 0 <= j && j < len(propfind.Prop.Raw) ==> propfind.Prop.Raw[j] == old(propfind.Prop.Raw[j]))
 //@   |   && propfind.Prop == old(propfind.Prop) && propfind.Prop.Raw == old(propfind.Prop.Raw)
-//@   loop 3 invariant I3: (forall k xml.Name :: has(props, k) ==> props[k] != nil) && (forall k xml.Name :: has(props, k) <==> (has(old(props), k) || k == ResourceTypeName))
+//@   loop 3 invariant I3: (forall k xml.Name :: has(props, k) ==> props[k] != nil) && (forall k xml.Name :: has(props, k) <==> (old(has(props, k)) || k == ResourceTypeName))
 //@ -- error answers (C13, C17): the status is the error's HTTP code, 500 for an error without one; the error text is the body
 //@ func internal.ServeError(w, err)
 //@   requires R1: w != nil && err != nil
